@@ -6,7 +6,7 @@ the prompt loop, no Env accessor writes through env.Node; history independence f
 Oracle / correspondence: sequences of valid and invalid queries on one loaded graph, each answer compared
 with the answer on a freshly scanned graph; console sessions (piped and incremental stdin) compared line by
 line with stand-alone CLI runs and with the console model's transcript."""
-import collections, json, os, random, re, subprocess, time
+import collections, json, os, random, re, shutil, subprocess, time
 from vlib import common as C, engine as E, querygen as QG, genquery as GQ
 from checks import c10, c15
 
@@ -168,6 +168,41 @@ def run(run):
                 hist.append(q)
             if s < 2:
                 run.sample(dict(sequence=seq[:4], length=len(seq)))
+        # ---- one `ci` run evaluates all rules on one loaded graph: every entry is the answer to its own query, whatever the
+        #      rules before it were (same id, same header, same predicate names, same aliases)
+        for rs in range(2 if quick else 10):
+            rdir = C.scratch("c16rules")
+            try:
+                qs = []
+                while len(qs) < 5:
+                    qq = gen_query().replace("\n", " ")
+                    if h.call(op="parse", q=qq).get("outcome") == "ok" and "/*" not in qq:
+                        qs.append(qq)
+                ids = ["java/shared-id", "java/shared-id", "java/other", "", "java/shared-id"]
+                rng.shuffle(ids)
+                for j, (qq, rid) in enumerate(zip(qs, ids)):
+                    hdr = ("/**\n * @id %s\n * @description rule %d\n * @problem.severity warning\n */\n" % (rid, j)) if rid else ""
+                    open(os.path.join(rdir, "r%02d.cql" % j), "w").write(hdr + qq + "\n")
+                out = os.path.join(rdir, "report.json")
+                rc, so, se = C.cli(["ci", "--project", proj.dir, "--ruleset", rdir, "--output", "json", "--output-file", out, "--disable-metrics"], timeout=300)
+                run.count(("ci-ruleset", rs, tuple(ids)))
+                stats["ci_rulesets"] += 1
+                try:
+                    rep = json.load(open(out)) or []
+                except Exception:
+                    rep = None
+                if rep is None or len(rep) != len(qs):
+                    run.violation("C16:ci-report", "`ci` over %d rules (rc=%s) gives %s entries" % (len(qs), rc, None if rep is None else len(rep)), dict(rules=qs, ids=ids))
+                    continue
+                for j, (qq, entry) in enumerate(zip(qs, rep)):
+                    want = fresh_answer(qq)
+                    got = ("ok", canon(json.dumps(entry.get("result")))) if entry.get("result") is not None else ("diag", None)
+                    if want[0] == "ok" and got != want:
+                        run.violation("C16:ci-entry-differs", "in one `ci` run the entry of rule %d (id %r) is not the stand-alone answer to its query %r" % (j, ids[j], qq[:160]),
+                                      dict(rules=qs, ids=ids, position=j, standalone=str(want)[:400], entry=str(got)[:400]))
+                        break
+            finally:
+                shutil.rmtree(rdir, ignore_errors=True)
         # ---- console vs stand-alone CLI
         nsess = 2 if quick else 12
         for s in range(nsess):
